@@ -581,6 +581,12 @@ def ResolveBinaryExpressionType(
     assert isinstance(operation, op.Operation)
 
     if op.IsComparison(operation):
+        # Only operands of the same kind and shape can be compared
+        if left.GetKind() != right.GetKind() or _GetRowsColumns(
+            left
+        ) != _GetRowsColumns(right):
+            Errors.ERROR_INCOMPATIBLE_TYPES.Raise(left, right)
+
         # Cast may be still necessary if we compare integers with floats
         baseType = _GetCommonPrimitiveType(left, right)
 
